@@ -119,7 +119,10 @@ impl SubscriptionActor {
             topic: Arc::downgrade(&topic),
             backlog: Messages::new(),
             outstanding: OutstandingMessageTracker::new(),
-            next_ack_id: AckId::new(1),
+            // ACK IDs start in a range of their own for every subscription: an ID handed out
+            // by a deleted subscription must not mean anything to a subscription created
+            // later under the same name.
+            next_ack_id: AckId::new(((internal_id as u64) << 32) + 1),
             deleted: false,
         };
 
